@@ -41,6 +41,20 @@ def cases(tier, seed):
     return [{'run': i} for i in range(n)]
 
 
+def spellings(uid, rng):
+    """Other ways of writing the same number that a lenient look-up may accept (Python's int() takes full-width and
+    Arabic-Indic digits, underscores, signs and blanks; SQLite's numeric affinity takes blanks, signs, leading zeros,
+    fractions and exponents).  Whatever the server makes of them, a Destroy it acknowledges has destroyed."""
+    fw = ''.join(chr(0xFF10 + int(c)) for c in uid)
+    ar = ''.join(chr(0x0660 + int(c)) for c in uid)
+    out = [fw, ar, '0' + uid, '+' + uid, ' ' + uid, uid + ' ', uid + '.0', uid + 'e0', uid + '\n', '0x%x' % int(uid), uid + '.00']
+    if len(uid) > 1:
+        out += [uid[0] + '_' + uid[1:], uid[:-1] + 'e1' if uid.endswith('0') else uid[0] + '_' + uid[1:]]
+    else:
+        out += ['0_' + uid, '00' + uid]
+    return rng.choice(out)
+
+
 def probes(uid, helper_uid, version):
     cp = cparams(cryptographic_algorithm=E.CryptographicAlgorithm.AES, block_cipher_mode=E.BlockCipherMode.ECB)
     out = [('get', op_get(uid)), ('get_attributes', op_get_attributes(uid)), ('get_attribute_list', op_get_attribute_list(uid)),
@@ -105,7 +119,7 @@ def run_case(ctx, case):
                 version = rng.choice(rig.VERSIONS)
                 act = rng.choice(('create', 'create', 'register', 'register', 'create_key_pair', 'derive', 'destroy',
                                   'destroy', 'destroy', 'destroy_newest_then_create', 'restart', 'abandon', 'kill',
-                                  'lifecycle', 'lifecycle'))
+                                  'lifecycle', 'lifecycle', 'locked'))
                 if act == 'create':
                     r = srv.send([op_create(policy='open' if version < (2, 0) else None, names=['k%d' % step])], ident, version)
                     if r.error is None and r.ok():
@@ -154,12 +168,34 @@ def run_case(ctx, case):
                         # somebody lists the store right before the Destroy (whatever the server remembers of a listing
                         # must not outlive the object)
                         srv.send([op_locate()], rng.choice((destroyer, rng.choice(IDENTS))), rng.choice(((1, 2), (1, 4))))
-                    r = srv.send([op_destroy(uid)], destroyer, version)
+                    spelled = uid
+                    if rng.random() < 0.3:
+                        spelled = spellings(uid, rng)
+                        ctx.count('destroys_with_another_spelling_of_the_identifier')
+                    try:
+                        r = srv.send([op_destroy(spelled)], destroyer, version)
+                    except Exception:
+                        continue
+                    if spelled != uid:
+                        ctx.cell('spelling', 'ok' if (r.error is None and r.ok()) else 'refused')
                     if r.error is None and r.ok():
                         ctx.count('destroys_acknowledged')
+                        after = rows_by_uid(srv.dump())
+                        # the base row decides existence (the rows Destroy leaves behind in the per-type tables are not observable)
+                        removed = set(u for u, r_ in before.items() if 'managed_objects' in r_) - \
+                            set(u for u, r_ in after.items() if 'managed_objects' in r_)
+                        if removed != {int(uid)}:
+                            ctx.violation('destroy-acknowledged|%s' % ('nothing-deleted' if not removed else 'wrong-object'),
+                                          'Destroy of %r (object %s) was acknowledged; rows removed from the store: %s'
+                                          % (spelled, uid, sorted(removed)), {'version': version, 'destroyer': destroyer})
+                            if 'managed_objects' in after.get(int(uid), {}):
+                                # the object is alive: the identifier the client used must not answer either
+                                check_dead(ctx, srv, spelled, helper, rng)
+                                continue
                         destroyed.add(uid)
                         live.pop(uid)
-                        after = rows_by_uid(srv.dump())
+                        if spelled != uid:
+                            check_dead(ctx, srv, spelled, helper, rng)
                         ctx.count('bystander_checks')
                         for u2, rows in before.items():
                             if str(u2) == uid:
@@ -173,6 +209,62 @@ def run_case(ctx, case):
                             if r2.error is None and r2.ok():
                                 new_uid(r2.uid(), 'Create-after-destroy-newest')
                                 live[r2.uid()] = ident[0]
+                elif act == 'locked':
+                    # a transient storage fault: another connection is reading the file, the COMMIT of this request finds
+                    # the database locked.  Whatever the server then answers, an acknowledged Destroy has destroyed and
+                    # an acknowledged creation is stored under a fresh identifier.
+                    what = rng.choice(('create', 'destroy', 'destroy', 'create_key_pair', 'register'))
+                    cands = [u for u in live if u not in helper.values()]
+                    if what == 'destroy' and not cands:
+                        what = 'create'
+                    before = rows_by_uid(srv.dump())
+                    with rig.busy_reader(srv):
+                        if what == 'destroy':
+                            uid = rng.choice(cands)
+                            r = srv.send([op_destroy(uid)], (live[uid], ['g1'] if live[uid] == 'carol' else None), version)
+                        elif what == 'create':
+                            r = srv.send([op_create(names=['locked%d' % step])], ident, version)
+                        elif what == 'create_key_pair':
+                            r = srv.send([op_create_key_pair()], ident, version)
+                        else:
+                            r = srv.send([op_register('sym', secret_sym(bytes([step % 251]) * 16), sym_attrs(length=128, masks=ALL_MASKS))], ident, version)
+                    # the engine's connection is left inside the failed transaction and keeps the file locked for other
+                    # connections; a restart (which acknowledged effects must survive anyway) gives the observer access
+                    srv.restart()
+                    last_restart = 'clean'
+                    after = rows_by_uid(srv.dump())
+                    ctx.count('requests_under_a_storage_fault')
+                    acked = r.error is None and r.ok()
+                    ctx.cell('storage-busy', what, 'acknowledged' if acked else 'refused')
+                    has = lambda rows, u: 'managed_objects' in rows.get(int(u), {})
+                    if acked and what == 'destroy':
+                        ctx.count('destroys_acknowledged')
+                        if has(after, uid):
+                            ctx.violation('destroy-acknowledged|nothing-deleted|storage-busy', 'Destroy of %s was acknowledged while the database '
+                                          'was locked by a reader; the object is still stored' % uid, None)
+                        else:
+                            destroyed.add(uid)
+                            live.pop(uid)
+                            check_dead(ctx, srv, uid, helper, rng)
+                    elif acked:
+                        new = [k[2] for k in r.payload()[2] if k[1] == T.TEXT]
+                        for u in new:
+                            new_uid(u, {'create': 'Create', 'create_key_pair': 'CreateKeyPair', 'register': 'Register'}[what] + '(storage busy)')
+                            if not has(after, u):
+                                ctx.violation('create-acknowledged|not-stored|storage-busy', '%s acknowledged identifier %s while the database was '
+                                              'locked by a reader; no such object is stored' % (what, u), None)
+                            else:
+                                live[u] = ident[0]
+                    else:
+                        # not acknowledged: anything it left behind is learned here (it must still be fresh)
+                        for u_ in set(after) - set(before):
+                            if has(after, u_) and str(u_) not in issued:
+                                issued.add(str(u_))
+                                live[str(u_)] = after[u_]['managed_objects'][8]
+                        for u_ in list(live):
+                            if not has(after, u_):
+                                live.pop(u_)
+                                destroyed.add(u_)
                 elif act == 'lifecycle':
                     # drive live objects through the lifecycle so that Destroy meets every state
                     cands = [u for u in live if u not in helper.values()]
